@@ -95,7 +95,7 @@ pub fn eval(c: &Sx) -> String {
     if replayed != recorded {
         // the implementation no longer follows the recorded trace: report where it departs
         let k = replayed.iter().zip(recorded.iter()).position(|(a, b)| a != b).unwrap_or(replayed.len().min(recorded.len()));
-        return format!("(diverged {} {})", k, replayed.get(k).cloned().unwrap_or_else(|| "end".into()));
+        return format!("(res (diverged {} {})) {}", k, replayed.get(k).cloned().unwrap_or_else(|| "end".into()), store_sx());
     }
-    result
+    format!("(res {}) {}", result, store_sx())
 }
